@@ -131,7 +131,7 @@ func c07(x *Ctx) {
 			if h == nil {
 				c.Undecided(rStop, "sendTracesEarly/loop", x.Pos(mds[0]), "makeDecision is not inside a loop")
 			} else {
-				inLoop := func(b *ssa.BasicBlock) bool { return (b == h || h.Dominates(b)) && eng.BlockReaches(b, h) }
+				inLoop := func(b *ssa.BasicBlock) bool { return inNaturalLoop(b, h) }
 				n := 0
 				for _, b := range ste.Blocks {
 					if !inLoop(b) || b == h {
